@@ -187,8 +187,28 @@ def build(c, root):
     return eng, src
 
 
-def live_children(exe_dir):
-    """Non-zombie processes whose command line mentions the run directory."""
+def live_children(exe_dir, grace=1.5):
+    """Non-zombie processes whose command line mentions the run directory. A process that has been signalled may need
+    a moment to be scheduled and die on a loaded machine: look again for up to `grace` seconds before reporting it;
+    what is still there then is killed (and reported)."""
+    import signal
+    import time
+
+    t0 = time.time()
+    while True:
+        out = _live_children(exe_dir)
+        if not out or time.time() - t0 > grace:
+            break
+        time.sleep(0.02)
+    for pid, _ in out:
+        try:
+            os.kill(int(pid), signal.SIGKILL)
+        except OSError:
+            pass
+    return out
+
+
+def _live_children(exe_dir):
     out = []
     for pid in os.listdir("/proc"):
         if not pid.isdigit() or int(pid) == os.getpid():
@@ -228,6 +248,10 @@ def cases(draw, engines):
                  "trr_double": draw(st.booleans()), "trr_endian": draw(st.sampled_from([">", "<"]))}}
     if c["beh"]["die_at"] is not None and c["beh"]["exit_code"] == 0:
         c["beh"]["exit_code"] = 3
+    if eng in EXT and draw(st.sampled_from([False, False, True])):
+        # the command is a wrapper / launcher: the worker is its child and lingers after its last frame
+        c["beh"]["launcher"] = True
+        c["beh"]["tail_sleep"] = 3.0
     return c
 
 
@@ -284,6 +308,8 @@ def body(rec, c):
             classes.append("varying-box")
         if will_die:
             classes.append("program-dies-with-exit-code")
+        if c["beh"].get("launcher") and eng_name in EXT:
+            classes.append("program-is-a-launcher-with-a-worker-child")
         if len(orders) == c["maxlen"]:
             classes.append("stopped-at-maxlen")
         nt = (eng_name in EXT and nframes_poll >= 2) or bool(c["beh"]["box_rate"]) or (c["op"] != "distance" and c["reverse"]) or len(orders) == c["maxlen"] or will_die
